@@ -65,6 +65,61 @@ def assigned_names(stmts):
     return res
 
 
+PURE_BUILTINS = {'isinstance', 'len', 'enumerate', 'range', 'zip', 'getattr', 'hasattr', 'str', 'int', 'bool', 'type', 'id',
+                 'min', 'max', 'abs', 'tuple', 'list', 'dict', 'set', 'frozenset', 'sorted', 'reversed', 'any', 'all', 'sum',
+                 'repr'}
+
+
+def reads_only(node):
+    """the code contains no call (except side-effect-free builtins applied to values), no store through an attribute or a
+    subscript, no deletion: executing it cannot change the heap (attribute reads are assumed free of side effects)"""
+    for n in ast.walk(node):
+        if isinstance(n, ast.Call):
+            if not (isinstance(n.func, ast.Name) and n.func.id in PURE_BUILTINS):
+                return False
+        elif isinstance(n, (ast.Delete, ast.Await, ast.Yield, ast.YieldFrom, ast.Lambda, ast.FunctionDef, ast.ClassDef,
+                            ast.Import, ast.ImportFrom, ast.With, ast.Raise, ast.Try)):
+            return False
+        elif isinstance(n, (ast.Assign, ast.AugAssign, ast.AnnAssign)):
+            tg = n.targets if isinstance(n, ast.Assign) else [n.target]
+            stack = list(tg)
+            while stack:
+                t = stack.pop()
+                if isinstance(t, (ast.Tuple, ast.List)):
+                    stack.extend(t.elts)
+                elif isinstance(t, ast.Starred):
+                    stack.append(t.value)
+                elif not isinstance(t, ast.Name):
+                    return False
+    return True
+
+
+def havoc_names(fv, st, names):
+    """the abstracted code only reads the heap: the locals it assigns get unconstrained values, nothing else changes"""
+    from .heap import ALLOC0
+    a1 = st.env['__alloc'].term if '__alloc' in st.env else ALLOC0
+    for n in sorted(names):
+        if n == 'self' or n.startswith('__'):
+            continue
+        if n in getattr(names, 'mutated_only', ()):
+            continue        # nothing is mutated by read-only code
+        if n not in st.env and fv.module is not None and (n in fv.module.imports or n in fv.module.functions
+                                                          or n in fv.module.classes or n in fv.module.globals):
+            continue
+        dt = fv.declared_local(n)
+        if dt is None and n in st.env and not st.env[n].ty.is_any and n in (fv.old_state.env if fv.old_state else {}):
+            dt = st.env[n].ty
+        ty = dt if dt is not None else ANY
+        sv = fv.E.fresh(n, ty)
+        tf = fv.typed_fact(sv.term, ty)
+        if not z3.is_true(tf):
+            fv.add_fact(st, tf)
+        if ty.strip_opt().is_obj:
+            fv.add_fact(st, z3.Implies(sv.term != P.none, z3.Select(a1, sv.term)))
+        st.env[n] = sv
+    fv.E.assumptions.add('attribute reads and the builtins isinstance/len/getattr/str/... have no side effect on tracked state')
+
+
 def havoc_state(fv, st, names, why=''):
     """everything the abstracted code may have changed gets an unconstrained value (objects it refers to exist)"""
     from .heap import ALLOC0
@@ -174,7 +229,10 @@ def abstract_statement(fv, s, st, reason):
                 raise Unsupported('%s:%d: a site (%s %s) lies inside a statement that cannot be executed (%s) and cannot be '
                                   'evaluated on its own (%s)' % (fv.qual, node.lineno, kind, what, reason, e))
     fv.abstracted.append(dict(line=s.lineno, stmt=ast.unparse(s).split('\n')[0][:100], reason=reason[:160]))
-    havoc_state(fv, st, assigned_names([s]))
+    if reads_only(s):
+        havoc_names(fv, st, assigned_names([s]))
+    else:
+        havoc_state(fv, st, assigned_names([s]))
 
 
 def fresh_bool(fv):
@@ -202,7 +260,8 @@ def slice_cond(fv, test, st):
     except (Unsupported, EngineError, z3.Z3Exception) as e:
         del fv.obligations[nf:]
         fv.abstracted.append(dict(line=test.lineno, stmt='condition ' + ast.unparse(test)[:90], reason=str(e)[:160]))
-        havoc_state(fv, st, assigned_names([ast.Expr(value=test)]))
+        if not reads_only(test):
+            havoc_state(fv, st, assigned_names([ast.Expr(value=test)]))
         return fresh_bool(fv)
 
 
@@ -210,6 +269,7 @@ def slice_if(fv, s, st):
     c = slice_cond(fv, s.test, st)
     s1 = st.copy(c)
     s2 = st.copy(simp_not(c))
+    fv.narrow_isinstance(s.test, s1)
     fv.exec_block(s.body, s1)
     fv.exec_block(s.orelse, s2)
     fv.merge_into(st, [s1, s2], conds=[c, simp_not(c)])
